@@ -352,14 +352,14 @@ where
                     let exp = storages[*s].contains(&k);
                     st.trace.push(format!("h{a}.contains({v}) [{how}]"));
                     if got != exp {
-                        bail!(&format!("contains-{how}"), "contains({v}) returned {got}, the shared vector {:?} says {exp}", storages[*s]);
+                        bail!(&format!("needle:contains-{how}"), "contains({v}) returned {got}, the shared vector {:?} says {exp}", storages[*s]);
                     }
                 } else {
                     let got = if via { sc.index.call(l.clone(), item).map(|x| x as usize) } else { l.index(&item) };
                     let exp = storages[*s].iter().position(|x| *x == k);
                     st.trace.push(format!("h{a}.index({v}) [{how}]"));
                     if got != exp {
-                        bail!(&format!("index-{how}"), "index({v}) returned {got:?}, the shared vector {:?} says {exp:?}", storages[*s]);
+                        bail!(&format!("needle:index-{how}"), "index({v}) returned {got:?}, the shared vector {:?} says {exp:?}", storages[*s]);
                     }
                 }
             }
